@@ -1,4 +1,138 @@
-(* PC10.v — placeholder while the proofs are being built *)
-From SV Require Import Sampling.
-Theorem C10_placeholder : True. Proof. exact I. Qed.
-Print Assumptions C10_placeholder.
+(* PC10.v — property C10: escalation only ever extends the evidence.
+   Only statements; proofs are in Sampling_proofs.v; the model (Sampling.v) is tied to shangrla/core/Audit.py by the
+   correspondence run of harness/c10.py.  Vocabulary as in PC07.v, plus:
+     grown ks ks'        the same contests (ids, positionally) with sample sizes not smaller
+     round_op            (o_sizes: the round's size vector, o_continue: pass the previous selection back?)
+     run_rounds          the audit driver's loop over rounds (round_step: set sizes, consistent_sampling fresh or continued,
+                         mark cvr.sampled); state = contests with thresholds, sampled flags, last selection
+     op_ok cards ids op  the round's size vector has one entry per contest, each available
+     nondecreasing ops   consecutive size vectors are pointwise non-decreasing
+     selection cards ks  the fresh-draw result for the contests ks (C07_selection (b))
+     with_sizes ids ns   contests ids with sizes ns *)
+From SV Require Import Sampling Sampling_proofs.
+From Coq Require Import Permutation Sorted.
+Open Scope Z_scope.
+
+Definition ex_cards : list (card nat) :=
+  [ mkcard 30 [(1, 7%nat)] 0%nat;  mkcard 50 [(2, 0%nat)] 1%nat;  mkcard 10 [(9, 3%nat)] 2%nat;
+    mkcard 20 [(2, 1%nat); (1, 0%nat)] 3%nat;  mkcard 40 [(2, 5%nat)] 4%nat;  mkcard 60 [(1, 1%nat)] 5%nat ].
+Definition ex_ks : list contest := [ mkcon 1 1 None; mkcon 2 2 None ].
+Definition ex_ks' : list contest := [ mkcon 1 3 (Some 20); mkcon 2 2 (Some 40) ].
+Definition ex_st : rstate := mkrs [ mkcon 1 0 None; mkcon 2 0 None ] (repeat false 6) [].
+Definition ex_ops : list round_op := [ mkop [1; 2]%nat true; mkop [3; 2]%nat true; mkop [3; 3]%nat false ].
+Lemma ex_available' : sizes_available ex_cards ex_ks'.
+Proof. intros k [<-|[<-|[]]]; vm_compute; lia. Qed.
+Lemma ex_grown : grown ex_ks ex_ks'.
+Proof. repeat constructor; simpl; lia. Qed.
+Lemma ex_distinct : NoDup (map c_num ex_cards).
+Proof. repeat constructor; simpl; intuition discriminate. Qed.
+Lemma ex_ops_ok : Forall (op_ok ex_cards (map k_id (r_contests ex_st))) ex_ops /\ nondecreasing ex_ops /\ r_prev ex_st = [].
+Proof.
+  split; [|split; [|reflexivity]].
+  - repeat constructor; intros k [<-|[<-|[]]]; vm_compute; lia.
+  - simpl. repeat constructor.
+Qed.
+
+(* For every sequence of rounds with available, non-decreasing size vectors, starting the audit with nothing sampled,
+   every round succeeds and returns the redraw selection for its sizes whichever rounds continue and whichever redraw,
+   and each round's selection contains the previous round's (as a subsequence: same relative order, no repetition). *)
+Theorem C10_superset : forall (V : Type) (cards : list (card V)) (ops : list round_op) (st : rstate),
+  Forall (op_ok cards (map k_id (r_contests st))) ops -> nondecreasing ops -> r_prev st = [] ->
+  map fst (run_rounds cards st ops) =
+    map (fun op => Ok (selection cards (with_sizes (map k_id (r_contests st)) (o_sizes op)))) ops /\
+  forall r x y, nth_error (run_rounds cards st ops) r = Some x -> nth_error (run_rounds cards st ops) (S r) = Some y ->
+    exists s s', fst x = Ok s /\ fst y = Ok s' /\ NoDup s /\ NoDup s' /\ incl s s' /\
+                 s = filter (fun i => memn i s) s'.
+Proof. exact (@C10_superset_stmt). Qed.
+Print Assumptions C10_superset.
+
+Example C10_superset_nonvacuous :
+  (Forall (op_ok ex_cards (map k_id (r_contests ex_st))) ex_ops /\ nondecreasing ex_ops /\ r_prev ex_st = []) /\
+  map fst (run_rounds ex_cards ex_st ex_ops) = [Ok [3; 4]%nat; Ok [3; 0; 4; 5]%nat; Ok [3; 0; 4; 1; 5]%nat].
+Proof. split; [exact ex_ops_ok|]. vm_compute. reflexivity. Qed.
+
+(* A continuation that is handed ANY list of earlier indices never loses one of them (sizes may even shrink). *)
+Theorem C10_superset_continue : forall (V : Type) (cards : list (card V)) (ks : list contest) (prev : list nat) (i : nat),
+  sizes_available cards ks -> In i prev -> (i < length cards)%nat ->
+  exists sel, fst (consistent_sampling cards ks (Some prev)) = Ok sel /\ In i sel.
+Proof. exact (@continue_keeps). Qed.
+Print Assumptions C10_superset_continue.
+
+Example C10_superset_continue_nonvacuous :
+  fst (consistent_sampling ex_cards ex_ks (Some [5; 2]%nat)) = Ok [2; 3; 4; 5]%nat.
+Proof. vm_compute. reflexivity. Qed.
+
+(* The data sequence seen by a contest's assertions (card comparison / ONEAudit with use_style, n_c >= 1) in a later round
+   with sizes not smaller is the earlier round's sequence with new observations appended — whether either round was a
+   redraw (None) or a continuation from any list, and whatever thresholds the contests carried into the rounds. *)
+Theorem C10_data_prefix : forall (V M D : Type) (f : M -> card V -> D) (g : M -> D) (mvr : nat -> M) (dflt : card V)
+    (cards : list (card V)) (ks ks' : list contest) (prev prev' : option (list nat)) (j : nat) (k k' : contest) (ty : atype),
+  NoDup (map c_num cards) -> sizes_available cards ks' -> grown ks ks' ->
+  nth_error ks j = Some k -> nth_error ks' j = Some k' -> (1 <= k_size k)%nat -> ty = Comparison \/ ty = OneAudit ->
+  let r := consistent_sampling cards ks prev in
+  let r' := consistent_sampling cards ks' prev' in
+  exists sel sel' k1 k1' d ext,
+    fst r = Ok sel /\ fst r' = Ok sel' /\ nth_error (snd r) j = Some k1 /\ nth_error (snd r') j = Some k1' /\
+    round_data f g mvr dflt cards sel ty true k1 = Ok d /\
+    round_data f g mvr dflt cards sel' ty true k1' = Ok (d ++ ext) /\
+    length d = k_size k /\ length (d ++ ext) = k_size k'.
+Proof. exact (@C10_data_prefix_stmt). Qed.
+Print Assumptions C10_data_prefix.
+
+Example C10_data_prefix_nonvacuous :
+  (NoDup (map c_num ex_cards) /\ sizes_available ex_cards ex_ks' /\ grown ex_ks ex_ks') /\
+  let f := fun (m : nat) (c : card nat) => (m, c_num c) in
+  let r := consistent_sampling ex_cards ex_ks None in
+  let r' := consistent_sampling ex_cards ex_ks' (Some [3; 4]%nat) in
+  fst r = Ok [3; 4]%nat /\ fst r' = Ok [3; 0; 4; 5]%nat /\
+  round_data f (fun m => (m, 0)) (fun i => i) (mkcard 0 [] 0%nat) ex_cards [3; 4]%nat Comparison true (mkcon 1 1 (Some 20))
+    = Ok [(3%nat, 20)] /\
+  round_data f (fun m => (m, 0)) (fun i => i) (mkcard 0 [] 0%nat) ex_cards [3; 0; 4; 5]%nat Comparison true (mkcon 1 3 (Some 60))
+    = Ok [(3%nat, 20); (0%nat, 30); (5%nat, 60)].
+Proof. split; [split; [exact ex_distinct | split; [exact ex_available' | exact ex_grown]]|]. vm_compute. auto. Qed.
+
+(* If prev is the selection for sizes n and n <= n' pointwise, the sampled_cvr_indices branch on (prev, n') returns the
+   same list AND the same contest states (thresholds) as a redraw with n'; hence (C10_data_prefix / C07_threshold, which
+   hold for both) the same per-contest data sequences. *)
+Theorem C10_continue_eq_redraw : forall (V : Type) (cards : list (card V)) (ks ks' : list contest) (prev : list nat),
+  sizes_available cards ks' -> grown ks ks' ->
+  fst (consistent_sampling cards ks None) = Ok prev ->
+  consistent_sampling cards ks' (Some prev) = consistent_sampling cards ks' None.
+Proof. exact (@C10_continue_eq_redraw_stmt). Qed.
+Print Assumptions C10_continue_eq_redraw.
+
+(* ... and over whole histories: the complete trace of the state machine (selections, thresholds, sampled flags) is the
+   same as if every round had been a redraw. *)
+Theorem C10_continue_eq_redraw_history : forall (V : Type) (cards : list (card V)) (ops : list round_op) (st : rstate),
+  Forall (op_ok cards (map k_id (r_contests st))) ops -> nondecreasing ops ->
+  (forall op, hd_error ops = Some op ->
+     forall i, In i (r_prev st) -> chosen cards (with_sizes (map k_id (r_contests st)) (o_sizes op)) i = true) ->
+  run_rounds cards st ops = run_rounds cards st (map as_redraw ops).
+Proof. exact (@history_mode_irrelevant). Qed.
+Print Assumptions C10_continue_eq_redraw_history.
+
+Example C10_continue_eq_redraw_nonvacuous :
+  (sizes_available ex_cards ex_ks' /\ grown ex_ks ex_ks' /\ fst (consistent_sampling ex_cards ex_ks None) = Ok [3; 4]%nat) /\
+  consistent_sampling ex_cards ex_ks' (Some [3; 4]%nat) =
+    (Ok [3; 0; 4; 5]%nat, [mkcon 1 3 (Some 60); mkcon 2 2 (Some 40)]) /\
+  run_rounds ex_cards ex_st ex_ops = run_rounds ex_cards ex_st (map as_redraw ex_ops).
+Proof. split; [split; [exact ex_available' | split; [exact ex_grown | vm_compute; reflexivity]]|]. vm_compute. auto. Qed.
+
+(* C10_p_monotone (pval (xs ++ ys) <= pval xs for the tests whose overall value is the minimum of the history) is a
+   statement about the NonnegMean model (NNM.v) and is added with C05/C11; together with C10_data_prefix it gives
+   "measured risk non-increasing from round to round".  Placeholder only — no theorem here. *)
+
+(* `asn.proved = (asn.p_value <= con.risk_limit) or asn.proved`: an assertion once confirmed stays confirmed through any
+   further rounds, whatever their p-values (larger, NaN, ...); it is set exactly by a p-value at or below the risk limit. *)
+Theorem C10_proved_sticky : forall (risk : Q) (ps qs : list Xq) (b : bool),
+  (proved_after risk ps b = true -> proved_after risk (ps ++ qs) b = true) /\
+  (forall p, xle p (Fin risk) = true -> proved_after risk (ps ++ p :: qs) b = true) /\
+  (proved_after risk ps b = true -> b = true \/ exists p, In p ps /\ xle p (Fin risk) = true).
+Proof. exact C10_proved_sticky_stmt. Qed.
+Print Assumptions C10_proved_sticky.
+
+Example C10_proved_sticky_nonvacuous :
+  proved_after (mkq 1 20) [Fin (mkq 1 2); Fin (mkq 1 50)] false = true /\
+  proved_after (mkq 1 20) ([Fin (mkq 1 2); Fin (mkq 1 50)] ++ [Fin 1; NaN]) false = true /\
+  proved_after (mkq 1 20) [Fin (mkq 1 2); NaN] false = false.
+Proof. vm_compute. auto. Qed.
